@@ -57,6 +57,26 @@ theorem C07_no_record_after_failure :
   have := reach_all ⟨saveStep⟩ 8 Generated.evolverEvolve Save.clean (fun _ st => st != .bad) (by decide) tr o hex
   simpa using this
 
+inductive SaveLast where
+  | clean | saved | bad
+  deriving DecidableEq, Repr
+
+/-- "once `_save_project_sig` was called, no task class is executed any more" -/
+def saveLastStep (st : SaveLast) (ev : Event) : SaveLast :=
+  match st, ev with
+  | .clean, .call n => if n == "_save_project_sig" then .saved else .clean
+  | .saved, .call n => if hasSub "execute_tasks" n then .bad else .saved
+  | st, _ => st
+
+/-- **the records are written after the last task class**: in every execution of `Evolver.evolve`, for every number
+of task classes, nothing is executed once the version and the evolution rows were written - so a failure in ANY
+task class (the evolutions, a purge) finds the stored signature and the recorded evolutions as they were -/
+theorem C07_records_written_last :
+    ∀ tr o, Exec Generated.evolverEvolve tr o → Mon.run ⟨saveLastStep⟩ SaveLast.clean tr ≠ .bad := by
+  intro tr o hex
+  have := reach_all ⟨saveLastStep⟩ 8 Generated.evolverEvolve SaveLast.clean (fun _ st => st != .bad) (by decide) tr o hex
+  simpa using this
+
 /-- a failing task makes the run raise (the exception is re-raised after `evolving_failed`) -/
 theorem C07_failure_propagates :
     ∀ tr o, Exec Generated.evolverEvolve tr o →
